@@ -511,6 +511,13 @@ def run(ctx):
         got = run_scripts(js, "thread", tmo, ctx.seed, full=True)
         traces += got
         metas += [{"script": s, "ser": ser, "server": "thread", "timeout": tmo, "full": True} for s, ser in js][:len(got)]
+    # thread-pool server: a connection (a garbage-sending one, or a well-behaved one) ends and the next client arrives while the
+    # worker is handing itself back; the worker is held back after each of its steps in turn
+    for hostile in (True, False):
+        for tr, m in L.handover_traces(ctx, hostile=hostile):
+            traces.append(tr)
+            metas.append(dict(m, script=[{"a": "attack", "pre": True, "item": "garbage" if hostile else "none"}], ser="serpent", server="thread",
+                              timeout=0.0, handover=True))
     for m in metas:
         ctx.count(json.dumps(m, sort_keys=True))
     for i in (0, len(traces) // 2, len(traces) - 1):
@@ -531,6 +538,10 @@ def replay(ctx, path):
     bad = 0
     for case in rep["cases"]:
         m = case["scenario"]
+        if m.get("handover"):
+            print("replay of hand-over schedules: rerun the check (the schedules are re-explored)")
+            bad += 1
+            continue
         tr = run_scripts([(m["script"], m["ser"])], m["server"], m["timeout"], ctx.seed, full=m.get("full", False))[0]
         v, _ = tlc.validate(ctx, "Trace_Daemon", [tr], cfg="Trace_Daemon.cfg")
         print("replay:", m["script"], m["ser"], m["server"], "->", v[0].split("|")[2] or "accepted")
